@@ -273,3 +273,52 @@ def show(e):
     if len(e) == 3:
         return "(%s %s %s)" % (show(e[1]), k, show(e[2]))
     return repr(e)
+
+
+def canon_cmp(e, unsigned=True):
+    """("cmp", op, a, b) -> (atom, polarity) with atom in canonical form: only `Lt` and `Eq` remain (Le/Ne become negated
+    Lt/Eq; Gt/Ge were already swapped by Sym), Eq operands are sorted, and comparisons of an unsigned value with 0 / 1
+    are all expressed as Eq(0, x):  0 < x, x != 0, 1 <= x  ==  not Eq(0, x);   x <= 0, x < 1  ==  Eq(0, x)."""
+    if e[0] != "cmp":
+        return None, True
+    op, a, b = e[1], e[2], e[3]
+    pol = True
+    if op == "Le":          # a <= b  ==  not (b < a)
+        op, a, b, pol = "Lt", b, a, False
+    elif op == "Ne":
+        op, pol = "Eq", False
+    if unsigned and op == "Lt":
+        if a == ("int", 0):                 # 0 < x
+            op, pol = "Eq", not pol
+        elif b == ("int", 1):               # x < 1
+            op, a, b = "Eq", ("int", 0), a
+        elif b == ("int", 0):               # x < 0 : never (unsigned); keep as is
+            pass
+    if op == "Eq" and repr(b) < repr(a):
+        a, b = b, a
+    return (op, a, b), pol
+
+
+def bool_switch(body, sym, bi):
+    """For a switchInt block whose discriminant is a comparison: (atom, target when the atom holds, target otherwise)."""
+    t = body.term(bi)
+    if t["k"] != "switch":
+        return None
+    e = sym.op(t["discr"])
+    neg = False
+    while e[0] == "un" and e[1] == "Not":
+        e = e[2]
+        neg = not neg
+    atom, pol = canon_cmp(e)
+    if atom is None:
+        return None
+    arms = {int(a[0]): a[1] for a in t["arms"]}
+    if set(arms) - {0, 1}:
+        return None
+    f_t = arms.get(0, t["otherwise"])
+    t_t = arms.get(1, t["otherwise"])
+    if f_t == t_t:
+        return None
+    if neg:
+        t_t, f_t = f_t, t_t
+    return (atom, t_t, f_t) if pol else (atom, f_t, t_t)
